@@ -1061,9 +1061,8 @@ def _collector_op(st):
     if (isinstance(st, ast.Assign) and len(st.targets) == 1 and isinstance(st.targets[0], ast.Subscript) and isinstance(st.targets[0].value, ast.Name)
             and not isinstance(st.targets[0].slice, (ast.Slice, ast.Tuple))):
         return ("setitem", st.targets[0].value.id, st.targets[0].slice, st.value)
-    # an accumulator: `acc = acc + e` / `acc = e + acc` / `acc += e` (and the same with *)
-    if isinstance(st, ast.AugAssign) and isinstance(st.target, ast.Name) and isinstance(st.op, (ast.Add, ast.Mult)):
-        return ("fold+" if isinstance(st.op, ast.Add) else "fold*", st.target.id, st.value)
+    # an accumulator: `acc = acc + e` / `acc = e + acc` (and the same with *).  NOT `acc += e`: on an array that is a store into
+    # the existing buffer (it keeps the buffer's dtype and is visible through every alias), which a re-binding is not
     if isinstance(st, ast.Assign) and len(st.targets) == 1 and isinstance(st.targets[0], ast.Name) and isinstance(st.value, ast.BinOp) and isinstance(st.value.op, (ast.Add, ast.Mult)):
         acc = st.targets[0].id
         for mine, other in ((st.value.left, st.value.right), (st.value.right, st.value.left)):
